@@ -174,9 +174,12 @@ pub fn ring_area2(r: &Ring) -> f64 {
     if n < 3 {
         return 0.0;
     }
+    // relative to the first vertex: the sign (and for exact families the value) does not degrade when a small ring
+    // lies far from the origin
+    let o = r[0];
     let mut a = 0.0;
     for i in 0..n {
-        let (p, q) = (r[i], r[(i + 1) % n]);
+        let (p, q) = ((r[i].0 - o.0, r[i].1 - o.1), (r[(i + 1) % n].0 - o.0, r[(i + 1) % n].1 - o.1));
         a += p.0 * q.1 - q.0 * p.1;
     }
     a
